@@ -467,7 +467,7 @@ func (k *checker) checkStaticTraversal(tc *travCase, e hcl.Expression, where str
 		return true
 	}
 	sv, sd := got.TraverseAbs(ctx)
-	if where != "json" {
+	if where != "json" && where != "object-key" { // evaluating a key gives a name, not the referenced value
 		ev, ed := e.Value(ctx)
 		if c := agree(ev, ed, sv, sd); c != "" {
 			k.fail("static-vs-eval:"+c+":"+where, "TraverseAbs of the static traversal and Value of the expression disagree", in, "eval   "+outcome(ev, ed)+"\nstatic "+outcome(sv, sd))
@@ -539,11 +539,13 @@ func (k *checker) checkTrav(tc *travCase) {
 		}
 		// inside brackets of a configuration attribute (newlines insignificant), and bare when it has no top-level newline
 		wrappers := []string{"x = [\n" + tc.Text + "\n]\n", "x = f(" + tc.Text + ", 1)\n", "x = {\n k = " + oneLine(tc.Text) + "\n}\n"}
+		// as an object constructor key (a static reference map): the key's static view is the same traversal
+		wrappers = append(wrappers, "x = {\n "+oneLine(tc.Text)+" = 1\n}\n")
 		if !hasTopLevelNewline(tc.Text) {
 			wrappers = append(wrappers, "x = "+tc.Text+"\n")
 		}
 		for wi, src := range wrappers {
-			if wi == 0 && tc.Steps[0].S == "for" {
+			if (wi == 0 || wi == 3) && tc.Steps[0].S == "for" {
 				// "[for" opens a for expression: the identifier cannot start a tuple element (language design, not a defect)
 				cx.Res.Count("tuple-wrapper-skipped(root-for)")
 				continue
@@ -578,6 +580,17 @@ func (k *checker) checkTrav(tc *travCase) {
 					return
 				}
 				inner, where = m[0].Value, "object-value"
+			case 3:
+				if tc.Steps[0].S == "for" {
+					cx.Res.Count("key-wrapper-skipped(root-for)")
+					continue
+				}
+				m, d := hcl.ExprMap(ae)
+				if d.HasErrors() || len(m) != 1 {
+					k.fail("exprmap:wrapper", "ExprMap of a one-item object constructor", in, src)
+					return
+				}
+				inner, where = m[0].Key, "object-key"
 			default:
 				inner = ae
 			}
